@@ -416,6 +416,23 @@ def rule_to_timings(chk: Check, model: Model, rid: str):
         chk.add(rid, "entries beyond the horizon are skipped", ok, f"entries are recorded under {T.show(g)[:160]}, expected partition_idx < num_partitions for both lists", chk.loc(fi))
     else:
         chk.unknown(rid, "index lists", f"expected one append to each index list, found {len(sl)}/{len(fl)}", chk.loc(fi))
+    # the templates are filled in place afterwards, field by field: two fields of one template must not be the same array object
+    # (`a = b = zeros(...)` / `b = a`): the later fill of one would overwrite the other
+    shared = []
+    for call in [n for n in ast.walk(fi.node) if isinstance(n, ast.Call) and len(n.keywords) >= 2]:
+        names = {k.arg: k.value.id for k in call.keywords if k.arg and isinstance(k.value, ast.Name)}
+        if len(names) < 2:
+            continue
+        for st in ast.walk(fi.node):
+            if isinstance(st, ast.Assign) and st.lineno < call.lineno:
+                tg = {t.id for t in st.targets if isinstance(t, ast.Name)}
+                hit = sorted(f for f, nme in names.items() if nme in tg)
+                if len(tg) >= 2 and len(hit) >= 2 and not isinstance(st.value, (ast.Constant, ast.Name)):
+                    shared.append((st.lineno, hit))
+                if len(st.targets) == 1 and isinstance(st.targets[0], ast.Name) and isinstance(st.value, ast.Name) and st.targets[0].id in names.values() and st.value.id in names.values():
+                    shared.append((st.lineno, sorted(f for f, nme in names.items() if nme in (st.targets[0].id, st.value.id))))
+    chk.add(rid, "template fields are separate arrays", not shared, f"fields {shared[0][1] if shared else ''} of a template are bound to one array object (line {shared[0][0] if shared else ''}): "
+            "filling one in place overwrites the other", chk.loc(fi))
     # templates: run False, window seq -1
     sv = _obj_events(r, "SlotVertex")
     wn = _obj_events(r, "Window")
